@@ -782,6 +782,11 @@ class C10(PropCheck):
                 return [('threshold_scalar', 'posterior.threshold is not a scalar')]
             fails.extend(self._formula_clause(case, out))
             for i, (g, lp) in enumerate(zip(out['grad'], out['logpdf'])):
+                if self._surrogate_grad_nonfinite(out['rows'][i]):
+                    # GPy's own predictive_gradients are nan/inf (degenerate hyper-parameters after optimisation):
+                    # no gradient of the posterior is defined from them; counted, not judged
+                    self.bump('surrogate_gradient_nonfinite_rows')
+                    continue
                 if not isinstance(lp, str) and any(isinstance(v, str) for v in g):
                     fails.append(('gradient_finite_where_logpdf_finite', 'row %d x=%s: logpdf %s is finite but gradient_logpdf is %s (term=%s, cdf=%s)'
                                   % (i, case['query']['points'][i], lp, g, out['rows'][i]['z'], out['rows'][i]['cdf'])))
@@ -860,10 +865,17 @@ class C10(PropCheck):
                               % (i, rw['x'], got, lp, what, rw['mean'], rw['var'], out.get('t_readback'))))
                 continue
             gg = out['grad'][i]
+            if self._surrogate_grad_nonfinite(rw):
+                continue
             if any(isinstance(v, str) for v in gg) or not close(gg, g, 1e-9 * max(1.0, abs(z))):
                 fails.append(('supplied_threshold_used', 'row %d x=%s: gradient_logpdf %s but the definition gives %s for the %s'
                               % (i, rw['x'], gg, g, what)))
         return fails[:2]
+
+    @staticmethod
+    def _surrogate_grad_nonfinite(rw):
+        vals = list(rw.get('gmean') or []) + list(rw.get('gvar') or [])
+        return any(isinstance(v, str) or v is None or v != v or abs(v) == float('inf') for v in vals)
 
     def _py_check_phases(self, case, out):
         fails = []
@@ -977,6 +989,9 @@ class C10(PropCheck):
     # ---- Coq terms --------------------------------------------------------------------------
     def to_coq(self, case, out):
         if case['kind'] in ('fast', 'phase') or 'ctor_exception' in out:
+            return None
+        if case['kind'] == 'post' and any(self._surrogate_grad_nonfinite(r) for r in (out.get('rows') or [])):
+            self.bump('surrogate_gradient_nonfinite_cases_not_sent_to_coq')
             return None
         if case['kind'] == 'ev':
             def erows(X, Y):
